@@ -5,12 +5,557 @@ Lemmas.Contract — helper lemmas for Props.C19.
 -/
 namespace HalmosVerif.Lemmas.Contract
 open HalmosVerif.Gen HalmosVerif.Model.Contract
-open HalmosVerif.Spec (Code.pushLen Code.jumpdestsFrom Code.validJumpdests Code.sweepFrom Code.byteAt Code.read Code.beVal)
-open HalmosVerif.Spec.Code (pushLen)
+open HalmosVerif.Spec.Code
 
 /-- the generated `insn_len` rule is the Yellow Paper's `N(i, w) − i` -/
 theorem insnLen_eq (w : Nat) : insnLen w = 1 + pushLen w := by
-  unfold insnLen insnLenInt pushLen OP_PUSH0 OP_PUSH1 OP_PUSH32 Spec.Code.PUSH1 Spec.Code.PUSH32
+  unfold insnLen insnLenInt pushLen OP_PUSH0 OP_PUSH1 OP_PUSH32 PUSH1 PUSH32
   split <;> split <;> omega
+
+theorem jumpdest_eq : OP_JUMPDEST = JUMPDEST := rfl
+
+theorem pushLen_jumpdest : pushLen JUMPDEST = 0 := by decide
+
+/-! ### views of a model byte -/
+
+/-- what a byte is *for `type(x) is int`*: only bytes of concrete chunks -/
+def strict : CodeByte → Option Nat
+  | .lit b => some b
+  | _ => none
+
+/-- what is known about a byte: numerals inside symbolic chunks are known too -/
+def known : CodeByte → Option Nat
+  | .lit b => some b
+  | .num b => some b
+  | .sym _ => none
+
+/-- the byte under a valuation of the unknown bytes -/
+def conc (σ : Nat → Nat) : CodeByte → Nat
+  | .lit b => b
+  | .num b => b
+  | .sym i => σ i
+
+/-! ### the Spec sweep: skipping, monotonicity, splitting at an all-known prefix -/
+
+theorem sweepFrom_skip (p : List (Option Nat)) (pc k : Nat) :
+    sweepFrom p pc k = sweepFrom (p.drop k) (pc + k) 0 := by
+  induction k generalizing p pc with
+  | zero => simp
+  | succ k ih =>
+    cases p with
+    | nil => simp [sweepFrom]
+    | cons x r =>
+      rw [sweepFrom, ih r (pc + 1)]
+      · simp only [List.drop_succ_cons]; congr 1; omega
+
+theorem stopFrom_skip (p : List (Option Nat)) (pc k : Nat) :
+    stopFrom p pc k = stopFrom (p.drop k) (pc + k) 0 := by
+  induction k generalizing p pc with
+  | zero => simp
+  | succ k ih =>
+    cases p with
+    | nil => simp [stopFrom]
+    | cons x r =>
+      rw [stopFrom, ih r (pc + 1)]
+      · simp only [List.drop_succ_cons]; congr 1; omega
+
+theorem stopFrom_ge (p : List (Option Nat)) (pc k : Nat) : pc ≤ stopFrom p pc k := by
+  induction p generalizing pc k with
+  | nil => simp [stopFrom]
+  | cons x r ih =>
+    cases k with
+    | zero =>
+      cases x with
+      | none => simp [stopFrom]
+      | some b =>
+        simp only [stopFrom]
+        split
+        · have := ih (pc + 1) 0; omega
+        · have := ih (pc + 1) (pushLen b); omega
+    | succ k => simp only [stopFrom]; have := ih (pc + 1) k; omega
+
+/-- sweeping `p₁ ++ q` where `p₁` has no unknown byte = sweeping `p₁`, then resuming in `q` where the sweep of `p₁` ended
+(possibly some bytes into `q`: a PUSH that straddles the boundary). -/
+theorem sweepFrom_append (p₁ q : List (Option Nat)) (h : ∀ x ∈ p₁, x ≠ none) (pc k : Nat) :
+    sweepFrom (p₁ ++ q) pc k
+      = sweepFrom p₁ pc k ++ sweepFrom ((p₁ ++ q).drop (stopFrom p₁ pc k - pc)) (stopFrom p₁ pc k) 0 := by
+  induction p₁ generalizing pc k with
+  | nil =>
+    simp only [List.nil_append, stopFrom, sweepFrom]
+    rw [sweepFrom_skip q pc k]; congr 2; omega
+  | cons x r ih =>
+    have hr : ∀ y ∈ r, y ≠ none := fun y hy => h y (List.mem_cons_of_mem _ hy)
+    have hdrop : ∀ (E : Nat), pc + 1 ≤ E →
+        (x :: (r ++ q)).drop (E - pc) = (r ++ q).drop (E - (pc + 1)) := by
+      intro E hE
+      have : E - pc = (E - (pc + 1)) + 1 := by omega
+      rw [this]; rfl
+    cases k with
+    | zero =>
+      cases x with
+      | none => exact absurd rfl (h none (List.mem_cons_self))
+      | some b =>
+        simp only [List.cons_append, sweepFrom, stopFrom]
+        split
+        · rw [ih hr (pc + 1) 0, hdrop _ (stopFrom_ge r (pc + 1) 0)]; simp
+        · rw [ih hr (pc + 1) (pushLen b), hdrop _ (stopFrom_ge r (pc + 1) _)]
+    | succ k =>
+      simp only [List.cons_append, sweepFrom, stopFrom]
+      rw [ih hr (pc + 1) k, hdrop _ (stopFrom_ge r (pc + 1) _)]
+
+/-! ### the `while` loop of `__get_jumpdests` is the sweep -/
+
+/-- one loop of `__get_jumpdests` over the bytes `l`, started at `pc`: it ends where the Spec sweep of the
+*strict* view of `l` (only native-int bytes are opcodes it can look at) ends, having added exactly that sweep. -/
+theorem scanLoop_eq (l : List CodeByte) (get : Nat → CodeByte)
+    (hget : ∀ i, i < l.length → get i = l.getD i (.lit 0)) :
+    ∀ (fuel pc : Nat) (acc : List Nat), l.length - pc < fuel →
+      scanLoop get l.length fuel pc acc
+        = some (stopFrom ((l.drop pc).map strict) pc 0, acc ++ sweepFrom ((l.drop pc).map strict) pc 0) := by
+  intro fuel
+  induction fuel with
+  | zero => intro pc acc h; omega
+  | succ fuel ih =>
+    intro pc acc hf
+    unfold scanLoop
+    by_cases hpc : pc < l.length
+    · rw [if_pos hpc, hget pc hpc]
+      have hd : l.drop pc = l[pc] :: l.drop (pc + 1) := List.drop_eq_getElem_cons hpc
+      have hg : l.getD pc (.lit 0) = l[pc] := by simp [hpc]
+      rw [hg, hd]
+      cases hb : l[pc] with
+      | lit op =>
+        simp only [List.map_cons, strict, sweepFrom, stopFrom]
+        by_cases hj : op = OP_JUMPDEST
+        · have hj' : op = JUMPDEST := hj
+          rw [if_pos hj, ih (pc + 1) _ (by omega), if_pos hj', if_pos hj']
+          simp
+        · have hj' : ¬ op = JUMPDEST := hj
+          have e : pc + insnLen op = pc + 1 + pushLen op := by rw [insnLen_eq]; omega
+          rw [if_neg hj, ih (pc + insnLen op) _ (by omega), if_neg hj', if_neg hj',
+            sweepFrom_skip _ (pc + 1) (pushLen op), stopFrom_skip _ (pc + 1) (pushLen op),
+            ← List.map_drop, List.drop_drop, e]
+      | num b => simp [strict, sweepFrom, stopFrom]
+      | sym i => simp [strict, sweepFrom, stopFrom]
+    · rw [if_neg hpc]
+      have : l.drop pc = [] := List.drop_eq_nil_of_le (by omega)
+      simp [this, sweepFrom, stopFrom]
+
+/-! ### well-formedness established by `Contract.__init__` -/
+
+/-- `_fastcode`, when present, is non-empty and is a prefix of the code, all of it native ints -/
+def WF (c : Contract) : Prop :=
+  ∀ f, c.fast = some f → f ≠ [] ∧ ∃ rest, c.code = f.map CodeByte.lit ++ rest
+
+theorem flatMap_filter_nonempty (cs : List Chunk) :
+    (cs.filter (fun c => !c.isEmpty)).flatMap Chunk.bytes = cs.flatMap Chunk.bytes := by
+  induction cs with
+  | nil => rfl
+  | cons c r ih =>
+    by_cases hc : c.isEmpty = true
+    · have : c.bytes = [] := by
+        cases c with
+        | conc bs => simp [Chunk.isEmpty] at hc; simp [Chunk.bytes, hc]
+        | symb bs => simp [Chunk.isEmpty] at hc; simp [Chunk.bytes, hc]
+      simp [hc, ih, this]
+    · simp [hc, ih]
+
+theorem ofChunks_code (cs : List Chunk) : (ofChunks cs).code = cs.flatMap Chunk.bytes := by
+  simp only [ofChunks]; exact flatMap_filter_nonempty cs
+
+theorem ofChunks_wf (cs : List Chunk) : WF (ofChunks cs) := by
+  intro f hf
+  simp only [ofChunks] at hf ⊢
+  generalize hcs : cs.filter (fun c => !c.isEmpty) = cs' at hf ⊢
+  cases cs' with
+  | nil => simp at hf
+  | cons c tl =>
+    cases c with
+    | symb bs => simp at hf
+    | conc bs =>
+      simp only [Option.some.injEq] at hf
+      subst hf
+      have hmem : Chunk.conc bs ∈ cs.filter (fun c => !c.isEmpty) := by rw [hcs]; exact List.mem_cons_self
+      have hne := (List.mem_filter.mp hmem).2
+      refine ⟨?_, tl.flatMap Chunk.bytes, ?_⟩
+      · intro h; subst h; simp [Chunk.isEmpty] at hne
+      · simp [List.flatMap_cons, Chunk.bytes]
+
+theorem bvGetByte_eq (l : List CodeByte) (i : Nat) (h : i < l.length) : bvGetByte l i = l.getD i (.lit 0) := by
+  simp [bvGetByte, h]
+
+/-- `__get_jumpdests` (two loops, `pc` carried across) = one Spec sweep over the strict view of the whole code -/
+theorem jumpdests_eq_sweep (c : Contract) (h : WF c) :
+    jumpdests c = some (sweepFrom (c.code.map strict) 0 0) := by
+  unfold jumpdests
+  cases hf : c.fast with
+  | none =>
+    by_cases he : c.code.isEmpty = true
+    · have : c.code = [] := by simpa using he
+      simp [this, sweepFrom]
+    · have := scanLoop_eq c.code (bvGetByte c.code) (bvGetByte_eq c.code) (c.code.length + 1) 0 [] (by omega)
+      simp [he, this]
+  | some f =>
+    obtain ⟨hne, rest, hcode⟩ := h f hf
+    have hfe : f.isEmpty = false := by cases f with | nil => exact absurd rfl hne | cons _ _ => rfl
+    have h1 := scanLoop_eq (f.map CodeByte.lit) (fun i => CodeByte.lit (f.getD i 0))
+      (by intro i hi; simp at hi; simp [hi]) (f.length + 1) 0 [] (by simp)
+    simp only [List.length_map, List.drop_zero, List.nil_append] at h1
+    have hce : c.code.isEmpty = false := by
+      rw [hcode]; cases f with | nil => exact absurd rfl hne | cons _ _ => rfl
+    have h2 := scanLoop_eq c.code (bvGetByte c.code) (bvGetByte_eq c.code) (c.code.length + 1)
+      (stopFrom ((f.map CodeByte.lit).map strict) 0 0) (sweepFrom ((f.map CodeByte.lit).map strict) 0 0) (by omega)
+    have hall : ∀ x ∈ (f.map CodeByte.lit).map strict, x ≠ none := by
+      intro x hx; simp [strict] at hx; obtain ⟨a, _, rfl⟩ := hx; simp
+    have h3 := sweepFrom_append ((f.map CodeByte.lit).map strict) (rest.map strict) hall 0 0
+    simp only [Nat.sub_zero, ← List.map_append, ← hcode] at h3
+    rw [h3]
+    simp only [hfe, hce, Bool.false_eq_true, ↓reduceIte, h1, Option.bind_eq_bind, Option.bind_some, h2, List.map_drop]
+
+/-! ### Spec-level facts about `D(c)` and the partial sweep -/
+
+theorem sweepFrom_map_some (c : List Nat) (pc k : Nat) :
+    sweepFrom (c.map some) pc k = jumpdestsFrom c pc k := by
+  induction c generalizing pc k with
+  | nil => simp [sweepFrom, jumpdestsFrom]
+  | cons b r ih =>
+    cases k with
+    | zero => simp only [List.map_cons, sweepFrom, jumpdestsFrom, ih]
+    | succ k => simp only [List.map_cons, sweepFrom, jumpdestsFrom, ih]
+
+/-- positions skipped as PUSH data are never destinations -/
+theorem jumpdestsFrom_ge (c : List Nat) (pc k d : Nat) (h : d ∈ jumpdestsFrom c pc k) : pc + k ≤ d := by
+  induction c generalizing pc k with
+  | nil => simp [jumpdestsFrom] at h
+  | cons b r ih =>
+    cases k with
+    | zero =>
+      simp only [jumpdestsFrom] at h
+      split at h
+      · rcases List.mem_cons.mp h with h | h
+        · omega
+        · have := ih _ _ h; omega
+      · have := ih _ _ h; omega
+    | succ k => simp only [jumpdestsFrom] at h; have := ih _ _ h; omega
+
+/-- every destination is a JUMPDEST byte of the code -/
+theorem jumpdestsFrom_byte (c : List Nat) (pc k d : Nat) (h : d ∈ jumpdestsFrom c pc k) :
+    pc ≤ d ∧ d - pc < c.length ∧ c.getD (d - pc) 0 = JUMPDEST := by
+  induction c generalizing pc k with
+  | nil => simp [jumpdestsFrom] at h
+  | cons b r ih =>
+    have step : ∀ k', d ∈ jumpdestsFrom r (pc + 1) k' →
+        pc ≤ d ∧ d - pc < (b :: r).length ∧ (b :: r).getD (d - pc) 0 = JUMPDEST := by
+      intro k' h'
+      obtain ⟨h1, h2, h3⟩ := ih _ _ h'
+      have e : d - pc = (d - (pc + 1)) + 1 := by omega
+      refine ⟨by omega, by simp; omega, ?_⟩
+      rw [e]; simpa using h3
+    cases k with
+    | zero =>
+      simp only [jumpdestsFrom] at h
+      split at h
+      · rcases List.mem_cons.mp h with h | h
+        · subst h; simp [*]
+        · exact step _ h
+      · exact step _ h
+    | succ k => simp only [jumpdestsFrom] at h; exact step _ h
+
+/-- soundness of the partial sweep: whatever the unknown bytes are, it only yields genuine destinations -/
+theorem sweepFrom_sound (p : List (Option Nat)) (c : List Nat) (hm : Matches p c) (pc k d : Nat)
+    (h : d ∈ sweepFrom p pc k) : d ∈ jumpdestsFrom c pc k := by
+  induction p generalizing c pc k with
+  | nil => simp [sweepFrom] at h
+  | cons x r ih =>
+    cases c with
+    | nil => simp [Matches] at hm
+    | cons b c' =>
+      obtain ⟨hx, hm'⟩ := hm
+      cases k with
+      | zero =>
+        cases x with
+        | none => simp [sweepFrom] at h
+        | some y =>
+          have : y = b := hx y rfl
+          subst this
+          simp only [sweepFrom, jumpdestsFrom] at h ⊢
+          split at h
+          · rename_i hj
+            rw [if_pos hj]
+            rcases List.mem_cons.mp h with h | h
+            · exact List.mem_cons.mpr (Or.inl h)
+            · exact List.mem_cons.mpr (Or.inr (ih c' hm' _ _ h))
+          · rename_i hj
+            rw [if_neg hj]; exact ih c' hm' _ _ h
+      | succ k => simp only [sweepFrom, jumpdestsFrom] at h ⊢; exact ih c' hm' _ _ h
+
+/-- completeness of the partial sweep when it meets no unknown opcode -/
+theorem sweepFrom_complete (p : List (Option Nat)) (c : List Nat) (hm : Matches p c) (pc k : Nat)
+    (hb : blockedFrom p k = false) : sweepFrom p pc k = jumpdestsFrom c pc k := by
+  induction p generalizing c pc k with
+  | nil => cases c with
+    | nil => simp [sweepFrom, jumpdestsFrom]
+    | cons _ _ => simp [Matches] at hm
+  | cons x r ih =>
+    cases c with
+    | nil => simp [Matches] at hm
+    | cons b c' =>
+      obtain ⟨hx, hm'⟩ := hm
+      cases k with
+      | zero =>
+        cases x with
+        | none => simp [blockedFrom] at hb
+        | some y =>
+          have : y = b := hx y rfl
+          subst this
+          simp only [blockedFrom] at hb
+          simp only [sweepFrom, jumpdestsFrom]
+          split
+          · rename_i hj; rw [if_pos hj] at hb; rw [ih c' hm' _ _ hb]
+          · rename_i hj; rw [if_neg hj] at hb; rw [ih c' hm' _ _ hb]
+      | succ k => simp only [blockedFrom] at hb; simp only [sweepFrom, jumpdestsFrom]; exact ih c' hm' _ _ hb
+
+/-- the sweep never passes the first unknown opcode -/
+theorem sweepFrom_lt_stop (p : List (Option Nat)) (pc k d : Nat) (h : d ∈ sweepFrom p pc k) : d < stopFrom p pc k := by
+  induction p generalizing pc k with
+  | nil => simp [sweepFrom] at h
+  | cons x r ih =>
+    cases k with
+    | zero =>
+      cases x with
+      | none => simp [sweepFrom] at h
+      | some y =>
+        simp only [sweepFrom, stopFrom] at h ⊢
+        split at h
+        · rename_i hj
+          rw [if_pos hj]
+          rcases List.mem_cons.mp h with h | h
+          · have := stopFrom_ge r (pc + 1) 0; omega
+          · exact ih _ _ h
+        · rename_i hj
+          rw [if_neg hj]; exact ih _ _ h
+    | succ k => simp only [sweepFrom, stopFrom] at h ⊢; exact ih _ _ h
+
+theorem matches_strict (σ : Nat → Nat) (l : List CodeByte) : Matches (l.map strict) (l.map (conc σ)) := by
+  induction l with
+  | nil => simp [Matches]
+  | cons b r ih =>
+    refine ⟨?_, ih⟩
+    intro x hx
+    cases b <;> simp [strict, conc] at hx ⊢
+    exact hx.symm
+
+theorem matches_known (σ : Nat → Nat) (l : List CodeByte) : Matches (l.map known) (l.map (conc σ)) := by
+  induction l with
+  | nil => simp [Matches]
+  | cons b r ih =>
+    refine ⟨?_, ih⟩
+    intro x hx
+    cases b <;> simp [known, conc] at hx ⊢ <;> exact hx.symm
+
+theorem strict_eq_known (l : List CodeByte) (h : ∀ b ∈ l, ∀ x, b ≠ CodeByte.num x) : l.map strict = l.map known := by
+  apply List.map_congr_left
+  intro b hb
+  cases b with
+  | lit _ => rfl
+  | num x => exact absurd rfl (h _ hb x)
+  | sym _ => rfl
+
+/-! ### byte reads, slices, instruction decoding, the `_insn` cache -/
+
+theorem read_getElem? (cc : List Nat) (s n i : Nat) :
+    (Spec.Code.read cc s n)[i]? = if i < n then some (cc.getD (s + i) 0) else none := by
+  unfold Spec.Code.read byteAt
+  by_cases h : i < n <;> simp [h]
+
+theorem read_length (cc : List Nat) (s n : Nat) : (Spec.Code.read cc s n).length = n := by simp [Spec.Code.read]
+
+theorem bvSlice_conc (σ : Nat → Nat) (code : List CodeByte) (s e : Nat) :
+    (bvSlice code s e).map (conc σ) = Spec.Code.read (code.map (conc σ)) s (e - s) := by
+  apply List.ext_getElem?
+  intro i
+  rw [read_getElem?]
+  unfold bvSlice
+  split
+  · simp; omega
+  · split
+    · by_cases h : i < e - s
+      · have : code.length ≤ s + i := by omega
+        simp [h, conc, this]
+      · simp [h]
+    · by_cases h : i < e - s
+      · simp only [List.getElem?_map, h, if_true]
+        by_cases h2 : s + i < code.length
+        · rw [List.getElem?_append_left (by simp; omega)]
+          simp [h, h2]
+        · rw [List.getElem?_append_right (by simp; omega)]
+          simp [conc]
+          refine ⟨CodeByte.lit 0, ?_, ?_⟩
+          · rw [List.getElem?_replicate]; rw [if_pos]; omega
+          · have : code.length ≤ s + i := by omega
+            simp [this]
+      · simp [h]; omega
+
+theorem getD_conc_prefix (σ : Nat → Nat) (f : List Nat) (rest : List CodeByte) (j : Nat) (h : j < f.length) :
+    ((f.map CodeByte.lit ++ rest).map (conc σ)).getD j 0 = f.getD j 0 := by
+  have hl : j < (List.map (conc σ ∘ CodeByte.lit) f).length := by simpa using h
+  simp only [List.map_append, List.map_map, List.getD_eq_getElem?_getD, List.getElem?_append_left hl]
+  simp [h, conc]
+
+/-- the fast path of `slice` / `unwrapped_slice`: a Python slice of `_fastcode` strictly inside it -/
+theorem fastSlice_conc (σ : Nat → Nat) (f : List Nat) (rest : List CodeByte) (s e : Nat) (he : e < f.length) :
+    ((pySlice f s e).map CodeByte.lit).map (conc σ)
+      = Spec.Code.read ((f.map CodeByte.lit ++ rest).map (conc σ)) s (e - s) := by
+  apply List.ext_getElem?
+  intro i
+  rw [read_getElem?]
+  unfold pySlice
+  by_cases h : i < e - s
+  · rw [if_pos h, getD_conc_prefix σ f rest (s + i) (by omega)]
+    have h1 : s + i < e := by omega
+    have h2 : s + i < f.length := by omega
+    simp [h1, h2, conc]
+  · rw [if_neg h]
+    simp; omega
+
+theorem getitem_conc (σ : Nat → Nat) (c : Contract) (h : WF c) (k : Nat) :
+    conc σ (getitem c k) = byteAt (c.code.map (conc σ)) k := by
+  have slow : conc σ (bvGetByte c.code k) = byteAt (c.code.map (conc σ)) k := by
+    unfold bvGetByte byteAt
+    by_cases hk : k < c.code.length
+    · simp [hk]
+    · have : c.code.length ≤ k := by omega
+      simp [hk, conc]
+  unfold getitem
+  cases hf : c.fast with
+  | none => exact slow
+  | some f =>
+    obtain ⟨_, rest, hcode⟩ := h f hf
+    simp only
+    split
+    · rename_i hk
+      rw [hcode]; unfold byteAt; rw [getD_conc_prefix σ f rest k hk]; rfl
+    · exact slow
+
+theorem unwrappedSlice_conc (σ : Nat → Nat) (c : Contract) (h : WF c) (s e : Nat) :
+    (unwrappedSlice c s e).map (conc σ) = Spec.Code.read (c.code.map (conc σ)) s (e - s) := by
+  unfold unwrappedSlice
+  cases hf : c.fast with
+  | none => exact bvSlice_conc σ c.code s e
+  | some f =>
+    obtain ⟨_, rest, hcode⟩ := h f hf
+    simp only
+    split
+    · rename_i hc
+      simp only [Bool.and_eq_true, decide_eq_true_eq] at hc
+      rw [hcode]; exact fastSlice_conc σ f rest s e hc.2
+    · exact bvSlice_conc σ c.code s e
+
+theorem slice_conc (σ : Nat → Nat) (c : Contract) (h : WF c) (s n : Nat) :
+    (n ≤ MAX_MEMORY_SIZE → ∃ bs, slice c s n = .ok bs ∧ bs.map (conc σ) = Spec.Code.read (c.code.map (conc σ)) s n) ∧
+    (MAX_MEMORY_SIZE < n → slice c s n = .error .outOfGas) := by
+  constructor
+  · intro hn
+    unfold slice
+    rw [if_neg (by omega)]
+    cases hf : c.fast with
+    | none => exact ⟨_, rfl, by simpa using bvSlice_conc σ c.code s (s + n)⟩
+    | some f =>
+      obtain ⟨_, rest, hcode⟩ := h f hf
+      simp only
+      split
+      · rename_i hc
+        simp only [Bool.and_eq_true, decide_eq_true_eq] at hc
+        refine ⟨_, rfl, ?_⟩
+        rw [hcode]; simpa using fastSlice_conc σ f rest s (s + n) hc.2
+      · exact ⟨_, rfl, by simpa using bvSlice_conc σ c.code s (s + n)⟩
+  · intro hn
+    unfold slice
+    rw [if_pos hn]
+
+/-- value of an operand: big-endian value of its bytes under the valuation -/
+def operandVal (σ : Nat → Nat) (bs : List CodeByte) : Nat := beVal (bs.map (conc σ))
+
+/-- `_decode_instruction` against the Spec, for a known opcode byte `op` -/
+theorem decodeRaw_known (σ : Nat → Nat) (c : Contract) (h : WF c) (pc op : Nat)
+    (hg : getitem c pc = .lit op ∨ getitem c pc = .num op) :
+    ∃ insn, decodeRaw c pc = .ok insn ∧
+      insn.opcode = (Spec.Code.decode (c.code.map (conc σ)) pc).opcode ∧
+      insn.pc = pc ∧
+      insn.nextPc = (Spec.Code.decode (c.code.map (conc σ)) pc).nextPc ∧
+      insn.operand.map (operandVal σ) = (Spec.Code.decode (c.code.map (conc σ)) pc).operand := by
+  have hop : byteAt (c.code.map (conc σ)) pc = op := by
+    rw [← getitem_conc σ c h pc]; rcases hg with hg | hg <;> simp [hg, conc]
+  have hl := insnLen_eq op
+  have hraw : decodeRaw c pc =
+      (if insnLen op > 1 then
+        .ok { opcode := op, pc := pc, nextPc := ((pc + insnLen op : Nat) : Int),
+              operand := some (unwrappedSlice c (pc + 1) (pc + insnLen op)) }
+      else .ok { opcode := op, pc := pc, nextPc := ((pc + insnLen op : Nat) : Int), operand := none }) := by
+    unfold decodeRaw
+    rcases hg with hg | hg <;> simp [hg]
+  rw [hraw]
+  unfold Spec.Code.decode
+  simp only [hop]
+  by_cases hp : pushLen op = 0
+  · rw [if_neg (by omega)]
+    refine ⟨_, rfl, rfl, rfl, ?_, ?_⟩
+    · simp [hl, hp]
+    · simp [hp]
+  · rw [if_pos (by omega)]
+    refine ⟨_, rfl, rfl, rfl, ?_, ?_⟩
+    · simp [hl]; omega
+    · simp only [Option.map_some, if_neg hp, operandVal, unwrappedSlice_conc σ c h]
+      congr 3; omega
+
+theorem decodeRaw_sym (c : Contract) (pc i : Nat) (hg : getitem c pc = .sym i) :
+    decodeRaw c pc = .error .notConcrete := by
+  unfold decodeRaw; simp [hg]
+
+theorem decode_eq (c : Contract) (pc : Nat) :
+    Model.Contract.decode c pc = if pc < c.code.length then decodeRaw c pc else .ok Insn.stop := by
+  unfold Model.Contract.decode decodeInstruction Cache.empty
+  by_cases hpc : pc < c.code.length
+  · simp [hpc]
+    cases decodeRaw c pc <;> rfl
+  · simp [hpc]
+
+/-- the `_insn` cache only ever holds what `_decode_instruction` returns for that slot -/
+def CacheOK (c : Contract) (cache : Cache) : Prop :=
+  cache.length = c.code.length ∧ ∀ pc insn, cache[pc]? = some (some insn) → decodeRaw c pc = .ok insn
+
+theorem cacheOK_empty (c : Contract) : CacheOK c (Cache.empty c) := by
+  refine ⟨by simp [Cache.empty], ?_⟩
+  intro pc insn h
+  simp [Cache.empty, List.getElem?_replicate] at h
+
+theorem decodeInstruction_cached (c : Contract) (cache : Cache) (hc : CacheOK c cache) (pc : Nat) :
+    (decodeInstruction c cache pc).1 = Model.Contract.decode c pc ∧ CacheOK c (decodeInstruction c cache pc).2 := by
+  obtain ⟨hlen, hok⟩ := hc
+  rw [decode_eq]
+  unfold decodeInstruction
+  by_cases hpc : pc < cache.length
+  · rw [if_pos hpc, if_pos (by omega)]
+    cases hget : cache.getD pc none with
+    | some insn =>
+      have : cache[pc]? = some (some insn) := by
+        simp [List.getD_eq_getElem?_getD, hpc] at hget; simp [hpc, hget]
+      simp only
+      exact ⟨(hok pc insn this).symm, hlen, hok⟩
+    | none =>
+      simp only
+      cases hraw : decodeRaw c pc with
+      | error e => exact ⟨rfl, hlen, hok⟩
+      | ok insn =>
+        refine ⟨rfl, by simpa using hlen, ?_⟩
+        intro pc' insn' h'
+        by_cases hpp : pc = pc'
+        · subst hpp
+          simp [hpc] at h'
+          subst h'; exact hraw
+        · rw [List.getElem?_set_ne hpp] at h'
+          exact hok pc' insn' h'
+  · rw [if_neg hpc, if_neg (by omega)]
+    exact ⟨rfl, hlen, hok⟩
 
 end HalmosVerif.Lemmas.Contract
